@@ -98,6 +98,16 @@ struct OlcEngine final : Engine {
       deep_b = A2[r.below(static_cast<uint64_t>(cnt))];
       add_prefill(lay.key(a0, deep_b, A3[1]));
     }
+    // sometimes the node below the hot node sits at a class boundary as well, so that growth, shrink and collapse happen
+    // two levels below the root while the hot node above it is being restructured (three inner levels on a scanner's stack)
+    std::vector<std::string> deep_present, deep_absent;
+    if (deep_b >= 0 && lay.L > 2 && r.chance(0.35)) {
+      static const int dsmall[] = {1, 2, 3, 3, 4, 4, 5, 15, 16, 17};
+      const int cnt2 = dsmall[r.below(10)];
+      auto A3b = alphabet(r, static_cast<size_t>(cnt2) + 2);
+      for (int i = 0; i < cnt2; i++) { const std::string k = lay.key(a0, deep_b, A3b[static_cast<size_t>(i)]); add_prefill(k); if (deep_present.size() < 3) deep_present.push_back(k); }
+      for (int i = 0; i < 2; i++) deep_absent.push_back(lay.key(a0, deep_b, A3b[static_cast<size_t>(cnt2 + i)]));
+    }
     std::vector<std::string> sib_keys;
     for (int i = 1; i < n1; i++) {
       std::string k = lay.key(A1[static_cast<size_t>(i)], -1, -1);
@@ -115,6 +125,8 @@ struct OlcEngine final : Engine {
     std::vector<std::string> special;
     if (deep_b >= 0) { special.push_back(lay.key(a0, deep_b, -1)); special.push_back(lay.key(a0, deep_b, A3[1])); special.push_back(lay.key(a0, deep_b, A3[2])); }
     for (auto& k : sib_keys) special.push_back(k);
+    for (auto& k : deep_present) special.push_back(k);
+    for (auto& k : deep_absent) { bool have = false; for (auto& p : present) if (p == k) have = true; if (!have) special.push_back(k); }
     special.push_back(lay.key(A1[static_cast<size_t>(n1)], -1, -1));  // absent top byte: grows / creates the top node
     if (lay.p2 - lay.p1 > 1) {  // diverges inside the hot node's compressed path: at its first byte, its last byte, or anywhere
       const int span = lay.p2 - lay.p1 - 1;
@@ -140,7 +152,7 @@ struct OlcEngine final : Engine {
     };
     take(hp, r.range(0, 2));
     take(ha, r.range(0, 2));
-    take(special, r.range(1, 3));
+    take(special, deep_present.empty() ? r.range(1, 3) : r.range(2, 4));
     if (focus_keys.empty()) focus_keys.push_back(lay.key(a0, A2[0], -1));
     std::vector<std::string> pool = focus_keys;
     for (auto& k : hp) pool.push_back(k);
